@@ -300,12 +300,15 @@ class ASTTypeBuilder:
         return InputObjectType(
             name=type_def.name.value,
             description=_desc(type_def),
-            fields=[
-                self._build_input_field(field_node)
-                for field_node in type_def.fields
-            ],
+            # has to be lazy to support cyclic definition
+            fields=ft.partial(self._build_input_fields, type_def.fields),
             nodes=[type_def],
         )
+
+    def _build_input_fields(
+        self, nodes: List[_ast.InputValueDefinition]
+    ) -> List[InputField]:
+        return [self._build_input_field(node) for node in nodes]
 
     def _build_argument(self, node: _ast.InputValueDefinition) -> Argument:
         type_ = self.build_type(node.type)
@@ -317,13 +320,17 @@ class ASTTypeBuilder:
         return Argument(node.name.value, type_, **kwargs)  # type: ignore
 
     def _build_input_field(self, node: _ast.InputValueDefinition) -> InputField:
-        type_ = self.build_type(node.type)
         kwargs = dict(description=_desc(node), node=node)
         if node.default_value is not None:
             kwargs["default_value"] = value_from_ast(
-                node.default_value, lazy(type_)
+                node.default_value, self.build_type(node.type)
             )
-        return InputField(node.name.value, type_, **kwargs)  # type: ignore
+        return InputField(
+            node.name.value,
+            # has to be lazy to support cyclic definition
+            ft.partial(self.build_type, node.type),
+            **kwargs  # type: ignore
+        )
 
     def _extend_object_type(self, object_type: ObjectType) -> ObjectType:
         name = object_type.name
@@ -475,16 +482,7 @@ class ASTTypeBuilder:
         )
 
         field_names = set(f.name for f in input_object_type.fields)
-        fields = [
-            InputField(
-                f.name,
-                self.extend_type(f.type),
-                default_value=f._default_value,
-                description=f.description,
-                node=f.node,
-            )
-            for f in input_object_type.fields
-        ]
+        fields = [self._extend_input_field(f) for f in input_object_type.fields]
 
         for extension_node in extensions:
             for ext_field in extension_node.fields:
@@ -495,13 +493,26 @@ class ASTTypeBuilder:
                         [ext_field],
                     )
                 field_names.add(ext_field.name.value)
-                fields.append(self._build_input_field(ext_field))
+                fields.append(
+                    self._extend_input_field(self._build_input_field(ext_field))
+                )
 
         return InputObjectType(
             name,
             description=input_object_type.description,
             fields=fields,
             nodes=input_object_type.nodes + extensions,  # type: ignore
+        )
+
+    def _extend_input_field(self, field: InputField) -> InputField:
+        return InputField(
+            field.name,
+            # has to be lazy to support cyclic definition
+            lambda: self.extend_type(field.type),
+            default_value=field._default_value,
+            description=field.description,
+            node=field.node,
+            python_name=field.python_name,
         )
 
     def _extend_scalar_type(self, scalar_type: ScalarType) -> ScalarType:
